@@ -255,9 +255,20 @@ func (b *iaTree) Snapshot(v int64) (reader, error) {
 }
 func (b *iaTree) GetVersioned(k []byte, v int64) ([]byte, error) { return b.t.GetVersioned(k, v) }
 func (b *iaTree) Version() int64                                 { return b.t.Version() }
-func (b *iaTree) AvailableVersions() []int                       { return b.t.AvailableVersions() }
-func (b *iaTree) VersionExists(v int64) bool                     { return b.t.VersionExists(v) }
-func (b *iaTree) Spec() *ics23.ProofSpec                         { return ics23.IavlSpec }
+
+// AvailableVersions: iavl reports [0] for a DB without versions (first = latest = 0, both ends
+// inclusive); 0 is no version (VersionExists(0) is false), it is dropped here (named deviation).
+func (b *iaTree) AvailableVersions() []int {
+	var out []int
+	for _, v := range b.t.AvailableVersions() {
+		if v != 0 {
+			out = append(out, v)
+		}
+	}
+	return out
+}
+func (b *iaTree) VersionExists(v int64) bool { return b.t.VersionExists(v) }
+func (b *iaTree) Spec() *ics23.ProofSpec     { return ics23.IavlSpec }
 
 func (b *iaTree) ExportTo(v int64, db dbm.DB, o opt) (tree, error) {
 	im, err := b.t.GetImmutable(v)
